@@ -264,6 +264,7 @@ class Item:
     repr: Optional[str] = None
     where_clause: bool = False       # render bounds in a where-clause instead of inline
     cparam_default: Optional[str] = None    # const parameters carry a default (`const N0: usize = 4`)
+    tparam_default: Optional[str] = None    # type parameters carry a default (`G0: Bound = u8`): legal on the enum, NOT in an impl header
     repr_form: Optional[List[str]] = None   # how #[repr] is WRITTEN: one entry per attribute, e.g. ["C, u8"], ["u8", "C"], ["align(8)", "i16"]
                                             # (`repr` stays the integer type: that is what rustc uses and what the model sees)
     groups: Optional[List[int]] = None
@@ -342,10 +343,11 @@ def generics_decl(it: Item, bounds: str = "") -> Tuple[str, str, str]:
         uses.append("'l%d" % i)
     for i in range(it.tparams):
         name = "G%d" % i
+        dflt = (" = " + it.tparam_default) if it.tparam_default else ""
         if bounds and not it.where_clause:
-            params.append("%s: %s" % (name, bounds))
+            params.append("%s: %s%s" % (name, bounds, dflt))
         else:
-            params.append(name)
+            params.append(name + dflt)
             if bounds:
                 wh.append("%s: %s" % (name, bounds))
         uses.append(name)
